@@ -3,7 +3,7 @@
    batch=False branches of the same kernels; proofs in Proofs/BatchSliceP.v (exact commutation with taking the
    b-th element) and Proofs/BatchP.v (value of every element). [slice_b t b] is the b-th ordinary tensor,
    [den] its decompression (Model/Format.v). *)
-From TN Require Import Proofs.BatchP.
+From TN Require Import Proofs.BatchP Proofs.BatchTorchP.
 
 Section C18.
 Variable K : Ops.
@@ -82,6 +82,12 @@ Theorem C18_select : forall B' sel (t : btensor K) bb idx,
   den (slice_b (select_b B' sel t) bb) idx = den (slice_b t (sel bb)) idx.
 Proof. exact (select_b_sound K). Qed.
 
+(* Tensor.torch() on a batch tensor (the factor walk of the code, Model/Batch.torch_b): the entry (b, idx) of the result is the
+   entry idx of element b.  [brank_last t] is the right rank of the last core (the final  sum(-1) / [..., 0]  needs it non-zero). *)
+Theorem C18_torch : forall (t : btensor K) bb idx, wf_btensor t = true -> (0 < brank_last t)%nat ->
+  in_range (bshape_of (bmodes t)) idx = true -> torch_val t bb idx = den (slice_b t bb) idx.
+Proof. exact (torch_b_sound K Kth). Qed.
+
 (* batch sizes must agree *)
 Theorem C18_add_batch_size : forall (t u r : btensor K), add_b t u = Some r -> bsz t = bsz u /\ bsz r = bsz t.
 Proof. exact (add_b_bsz K). Qed.
@@ -95,5 +101,5 @@ Print Assumptions C18_sadd_slice. Print Assumptions C18_decompress_slice. Print 
 Print Assumptions C18_select_slice. Print Assumptions C18_select_int. Print Assumptions C18_wf_slice.
 Print Assumptions C18_add_c. Print Assumptions C18_mul_with.
 Print Assumptions C18_add. Print Assumptions C18_mul. Print Assumptions C18_smul. Print Assumptions C18_sadd.
-Print Assumptions C18_decompress. Print Assumptions C18_select.
+Print Assumptions C18_decompress. Print Assumptions C18_select. Print Assumptions C18_torch.
 Print Assumptions C18_add_batch_size. Print Assumptions C18_mul_batch_size.
